@@ -153,6 +153,13 @@ def run(spec, ctx):
         want = {l: [sid[t] for t in ts] for l, ts in os_.items()}
         if groups != want:
             viols.append(C.viol('C11/list-order-differs', 'listed %r, ran %r' % (groups, want)))
+        # ... and the same listing asked for together with -j N
+        lstj, _ = ex(dict(ropt, list=True, j=spec.get('j', 2)), 'list-j')
+        if not lstj.raised:
+            groupsj = {l: t for l, t in C.parse_listing(lstj.text) if l != '.EmptyLayer'}
+            if groupsj != want:
+                viols.append(C.viol('C11/list-order-differs/with-j',
+                                    'listed with -j %r, ran %r' % (groupsj, want)))
     # -j N with the ORIGINAL options (clock seed: the children must use the parent's seed)
     jopt = dict(opt, j=spec.get('j', 2))
     par, Tp = ex(jopt, 'parallel')
